@@ -565,6 +565,10 @@ func (g *rawGen) bundle() (map[string]string, []string) {
 		m.WriteString("message ThingRefs {\n  option (j5.ext.v1.psm) = {entity_name: \"thing\" entity_part: ENTITY_PART_REFERENCES};\n  string other_id = 1;\n}\n\n")
 		m.WriteString("message ThingDerived {\n  option (j5.ext.v1.psm) = {entity_name: \"thing\" entity_part: ENTITY_PART_DERIVED};\n  int64 total = 1;\n}\n\n")
 	}
+	if g.on() {
+		// an object that flattens the object of the same name of another package
+		m.WriteString("message Shared {\n  rawb.v1.Shared base = 1 [(j5.ext.v1.field).object.flatten = true];\n  string extra = 2;\n  Shared next = 3;\n}\n\n")
+	}
 	m.WriteString("message Member {\n")
 	if g.on() {
 		m.WriteString("  option (j5.ext.v1.message).object = {any_member: [\"payload\", \"other\"]};\n")
@@ -576,7 +580,12 @@ func (g *rawGen) bundle() (map[string]string, []string) {
 	if ent {
 		m.WriteString("  option (j5.ext.v1.psm) = {entity_name: \"thing\" entity_part: ENTITY_PART_KEYS};\n")
 	}
-	m.WriteString("  string thing_id = 1 [(buf.validate.field).required = true, (buf.validate.field).string.uuid = true")
+	// a primary key is usually, but need not be, marked required as well
+	if g.on() {
+		m.WriteString("  string thing_id = 1 [(buf.validate.field).required = true, (buf.validate.field).string.uuid = true")
+	} else {
+		m.WriteString("  string thing_id = 1 [(buf.validate.field).string.uuid = true")
+	}
 	if g.on() {
 		m.WriteString(", (j5.ext.v1.key) = {primary_key: true}")
 	}
